@@ -20,7 +20,9 @@ SPEC = {
                     "equirectangular local projection around the map's anchor; street scale (10-250 m per grid unit), |lat| < 60"],
     'deductive': [("metric selection (setter, __init__)", 'setter', r'.'), ("geometry purity of the matcher modules (syntactic)", 'purity', r'.')],
     'bounded': [('latlon-vs-projected-planar', geo_suites.case_C15, 6000, 120000,
-                 "universe maps/traces placed at 7 anchors (|lat| <= 59, several longitudes incl. 179) at 10-250 m per grid unit; emitting-only, no cut-offs, both families; non-trivial = non-empty match on a map with >= 3 nodes", "")],
+                 "universe maps/traces placed at 7 anchors (|lat| <= 59, several longitudes; one case in nine straddles the antimeridian or the prime meridian) at 10-250 m per grid unit; "
+                 "a quarter with a duplicated node (zero-length edge), a quarter with decimetre geometry (fixes a few decimetres from a node, fixes that hardly move); "
+                 "emitting-only, no cut-offs, both families; non-trivial = non-empty match on a map with >= 3 nodes", "")],
     'extra_builders': {'setter': lambda prog, tier: [M.vc_use_latlon_setter(prog, v) for v in (True, False, None)] + [M.vc_basemap_init(prog, v) for v in (True, False)],
                        'purity': _purity},
 }
